@@ -66,10 +66,10 @@ func (c12) Budget(tier string) runner.Budget {
 func (c12) Describe() runner.Description {
 	return runner.Description{
 		Rule: "call-tree plans (85%): a seeded tree of 2..14 frames (depth <=5), each a deployed contract with effects (SSTORE of a per-frame slot, LOG1, 1-wei transfer to a sink, CREATE of a 1-byte contract), children called by CALL / CALLCODE / DELEGATECALL / STATICCALL with full or limited gas, and an ending (RETURN, REVERT, INVALID, infinite loop, stack fault); the root gas limit is ample or starved at a seeded point. Every successful frame returns the bitmap of frames of its subtree whose effects must persist; the transaction runs through the real block executor. Oracle: final storage of every frame slot, the ordered receipt logs, sink and contract balances, contract nonces and the set of created accounts equal exactly the effects of the frames in the returned bitmap (failed frames and their subtrees contribute nothing); no frame inside a STATICCALL subtree that has effects may report success and nothing from such a subtree may persist; a failed root leaves the whole state as before except fee/nonce of the sender. Cross-transaction plans (15%): 2-4 identical-shaped transactions in one block, each TLOADs a slot, records it, TSTOREs, touches storage and logs: every transaction must read transient storage empty, pay the same gas (no warm access list inherited), and its receipt must carry exactly its own log. distinct_nontrivial = distinct tree shapes (kinds, endings, effects, gas shares) with at least one failing inner frame.",
-		Assumptions: []string{"frame effects use per-frame slots/topics so that every observed value is attributable to one frame", "SELFDESTRUCT is not generated (accounts are only removed when the block is finalised)"},
+		Assumptions: []string{"frame effects use per-frame slots/topics so that every observed value is attributable to one frame", "SELFDESTRUCT only as the ending of a CALL-kind frame (its own contract), beneficiary a sink account"},
 		Real:        []string{"vm (EVM call/create/static handling, interpreter, gas)", "executor contract executor", "core/vmexecutor (Prepare, snapshot/revert, receipts)", "storage/account (journal, access list, transient storage, logs)"},
 		Stub:        []string{"ConsensusHelper", "network"},
-		FaultKinds:  []string{"gas_starvation_root", "gas_starvation_frame", "frame_revert", "frame_invalid", "frame_oog", "frame_stackfault", "static_context", "same_block_second_tx"},
+		FaultKinds:  []string{"frame_selfdestruct", "gas_starvation_root", "gas_starvation_frame", "frame_revert", "frame_invalid", "frame_oog", "frame_stackfault", "static_context", "same_block_second_tx"},
 	}
 }
 
@@ -108,6 +108,9 @@ func (c12) Gen(seed uint64, tier string) json.RawMessage {
 		}
 		if i == 0 && r.Chance(0.1) {
 			f.End = []string{"revert", "invalid"}[r.Intn(2)]
+		}
+		if i > 0 && f.Kind == "call" && f.End == "return" && len(f.Kids) == 0 && r.Chance(0.3) {
+			f.End = "selfdestruct" // the frame's contract destroys itself (beneficiary: the sink)
 		}
 		if f.End == "oog" || f.End == "invalid" {
 			f.Gas = uint64(r.Range(3, 30)) * 100000 // bounded: these endings burn whatever they are given
@@ -173,9 +176,10 @@ func c12Code(p *c12Plan, i int) []byte {
 			c.Push(kf.Gas)
 		}
 		c.Op(op)
-		// success flag on the stack: acc |= flag ? out : 0  (out is 0 unless the child returned its word)
-		c.Op(evmasm.POP)
-		c.Push(0x40).Op(evmasm.MLOAD).Push(0).Op(evmasm.MLOAD, evmasm.OR).Push(0).Op(evmasm.MSTORE)
+		// success flag on the stack: acc |= flag*(1<<kid) | out   (out is 0 unless the child returned its word;
+		// a child that ends by SELFDESTRUCT succeeds without returning anything)
+		c.PushBytes(new(big.Int).Lsh(big.NewInt(1), uint(kid)).Bytes()).Op(evmasm.MUL)
+		c.Push(0x40).Op(evmasm.MLOAD, evmasm.OR).Push(0).Op(evmasm.MLOAD, evmasm.OR).Push(0).Op(evmasm.MSTORE)
 	}
 	switch f.End {
 	case "return":
@@ -184,6 +188,8 @@ func c12Code(p *c12Plan, i int) []byte {
 		c.Push(0).Push(0).Op(evmasm.REVERT)
 	case "invalid":
 		c.Op(evmasm.INVALID)
+	case "selfdestruct":
+		c.PushBytes(c12Sink.Bytes()).Op(evmasm.SELFDESTRUCT)
 	case "oog":
 		pc := len(c)
 		c.Op(evmasm.JUMPDEST).Push(uint64(pc)).Op(evmasm.JUMP)
@@ -260,7 +266,7 @@ func (c12) Exec(raw json.RawMessage, st *simrt.Stats, log *simrt.Log) *simrt.Vio
 	shape := ""
 	for i, f := range p.Frames {
 		shape += fmt.Sprintf("%s/%s/%v/%d;", f.Kind, f.End, f.Effects, f.Gas)
-		if i > 0 && f.End != "return" {
+		if i > 0 && f.End != "return" && f.End != "selfdestruct" {
 			failingInner = true
 		}
 		switch f.End {
@@ -272,6 +278,8 @@ func (c12) Exec(raw json.RawMessage, st *simrt.Stats, log *simrt.Log) *simrt.Vio
 			st.Fault("frame_oog")
 		case "stackfault":
 			st.Fault("frame_stackfault")
+		case "selfdestruct":
+			st.Fault("frame_selfdestruct")
 		}
 		if f.Kind == "static" {
 			st.Fault("static_context")
@@ -317,14 +325,18 @@ func (c12) Exec(raw json.RawMessage, st *simrt.Stats, log *simrt.Log) *simrt.Vio
 		if !persisted[i] {
 			continue
 		}
-		if f.End != "return" {
+		if f.End != "return" && f.End != "selfdestruct" {
 			return viol(i, "bitmap-malformed", "ending", "frame %d ends with %s but reports success", i, f.End)
 		}
 		if parent[i] >= 0 && !persisted[parent[i]] {
 			return viol(i, "bitmap-malformed", "ancestor", "frame %d reports success below a failed frame %d", i, parent[i])
 		}
-		if static[i] && len(f.Effects) > 0 {
-			return viol(i, "write-in-static-context-succeeded", f.Effects[0], "frame %d runs inside a STATICCALL subtree, performs %v, and reported success", i, f.Effects)
+		if static[i] && (len(f.Effects) > 0 || f.End == "selfdestruct") {
+			what := "selfdestruct"
+			if len(f.Effects) > 0 {
+				what = f.Effects[0]
+			}
+			return viol(i, "write-in-static-context-succeeded", what, "frame %d runs inside a STATICCALL subtree, performs %v (ending %s), and reported success", i, f.Effects, f.End)
 		}
 	}
 	// expected effects: exactly those of persisted frames outside static subtrees
@@ -351,6 +363,14 @@ func (c12) Exec(raw json.RawMessage, st *simrt.Stats, log *simrt.Log) *simrt.Vio
 			}
 		}
 	}
+	// contracts destroyed by a persisted self-destructing frame (only call-kind frames end that way: ctx = the frame)
+	destroyed := map[int]bool{}
+	for i, f := range p.Frames {
+		if f.End == "selfdestruct" && persisted[i] && !static[i] {
+			destroyed[i] = true
+			sinkGain += 1000 - pays[i] // whatever it still held goes to the sink as well
+		}
+	}
 	// storage
 	for i, f := range p.Frames {
 		has := false
@@ -362,7 +382,7 @@ func (c12) Exec(raw json.RawMessage, st *simrt.Stats, log *simrt.Log) *simrt.Vio
 		for a := 0; a < nf; a++ {
 			got := post.GetState(c12Addr(a), common.BigToHash(big.NewInt(int64(1000+i))))
 			want := common.Hash{}
-			if has && persisted[i] && !static[i] && ctx[i] == a {
+			if has && persisted[i] && !static[i] && ctx[i] == a && !destroyed[a] {
 				want = common.BigToHash(big.NewInt(int64(i + 1)))
 			}
 			if got != want {
@@ -399,6 +419,15 @@ func (c12) Exec(raw json.RawMessage, st *simrt.Stats, log *simrt.Log) *simrt.Vio
 		return viol(0, "value-transfer-of-failed-frame-kept", "sink", "sink gained %s wei, persisted frames paid %d", d.String(), sinkGain)
 	}
 	for a := 0; a < nf; a++ {
+		if destroyed[a] {
+			if len(post.GetCode(c12Addr(a))) != 0 || post.GetBalance(c12Addr(a)).Sign() != 0 {
+				return viol(a, "selfdestruct-of-persisted-frame-missing", "contract", "contract %d self-destructed in a persisted frame but still has code/balance", a)
+			}
+			continue
+		}
+		if len(post.GetCode(c12Addr(a))) == 0 {
+			return viol(a, "account-removed-by-failed-frame", "contract", "contract %d lost its code although no persisted frame destroyed it (a reverted SELFDESTRUCT left a trace)", a)
+		}
 		want := new(big.Int).Sub(pre.GetBalance(c12Addr(a)), big.NewInt(pays[a]))
 		if post.GetBalance(c12Addr(a)).Cmp(want) != 0 {
 			return viol(a, "value-transfer-of-failed-frame-kept", "contract", "contract %d balance %s, expected %s", a, post.GetBalance(c12Addr(a)).String(), want.String())
